@@ -75,8 +75,21 @@ def run_harness(scens, wd, tag, isolate=False):
     env = dict(os.environ)
     if isolate:
         env["QV_ISOLATE"] = "1"
-    p = subprocess.run([QV, "run", sp, tp], stdout=subprocess.PIPE, stderr=subprocess.PIPE,
-                       text=True, timeout=1800, env=env)
+    try:
+        p = subprocess.run([QV, "run", sp, tp], stdout=subprocess.PIPE, stderr=subprocess.PIPE,
+                           text=True, timeout=1800 if isolate else 600, env=env)
+    except subprocess.TimeoutExpired:
+        if isolate:
+            raise ToolError(f"harness timeout on {tag}")
+        # a scenario spins inside the code under test (no await: the executor cannot see it). Run the chunk again
+        # with one process per scenario and a time limit each: the spinning one dies and is reported as such
+        log(f"  note: harness run {tag} exceeded its time limit; repeating it with one process per scenario")
+        env["QV_ISOLATE"] = "1"
+        try:
+            p = subprocess.run([QV, "run", sp, tp], stdout=subprocess.PIPE, stderr=subprocess.PIPE,
+                               text=True, timeout=3000, env=env)
+        except subprocess.TimeoutExpired:
+            raise ToolError(f"harness timeout on {tag} (isolated)")
     if p.returncode != 0:
         log(p.stderr[-3000:])
         raise ToolError(f"harness failed on {tag}")
